@@ -12,7 +12,7 @@ use crate::engine::{replay_from_file, show_bytes, CheckResult, Ctx, Failure, Obs
 use crate::fail;
 use crate::gen::{aiger_max_code, dimacs_max, doc_strategy, AigDoc, DimacsDoc, Doc};
 use crate::inputs::{input_for_spec, write_aiger_with_crate, write_with_crate, AigWriter, Input};
-use crate::source::{feed_strategy, Feed};
+use crate::source::Feed;
 
 pub fn def() -> PropDef {
     PropDef {
@@ -369,7 +369,7 @@ fn forward_strategy() -> impl Strategy<Value = Forward> {
             (
                 Just(spec),
                 doc_strategy(spec, 10),
-                proptest::option::weighted(0.5, feed_strategy()),
+                proptest::option::weighted(0.5, crate::source::parser_feed_strategy()),
                 any::<u8>(),
                 any::<u64>(),
             )
@@ -380,7 +380,13 @@ fn forward_strategy() -> impl Strategy<Value = Forward> {
             // with a single call, which takes the writer's write-through path)
             if junk % 37 == 0 {
                 let n = [16383usize, 16384, 16385, 20000, 50000][(junk / 37 % 5) as usize];
-                let big: String = (0..n).map(|k| (b'a' + ((k as u64 * 7 + junk) % 26) as u8) as char).collect();
+                // ASCII, or multi-byte characters throughout (behind a short ASCII prefix, so that any
+                // fixed byte boundary falls inside a character for some cases)
+                let big: String = match junk / 370 % 3 {
+                    0 => (0..n).map(|k| (b'a' + ((k as u64 * 7 + junk) % 26) as u8) as char).collect(),
+                    1 => "abc"[..(junk / 1110 % 4).min(3) as usize].chars().chain(std::iter::repeat('\u{fc}').take(n / 2)).collect(),
+                    _ => "ab"[..(junk / 1110 % 3).min(2) as usize].chars().chain(std::iter::repeat('\u{2192}').take(n / 3)).collect(),
+                };
                 match &mut doc {
                     Doc::Aiger(d) => {
                         if junk / 185 % 2 == 0 || d.aig.symbols.is_empty() {
@@ -391,7 +397,12 @@ fn forward_strategy() -> impl Strategy<Value = Forward> {
                     }
                     Doc::Btor(lines) => {
                         if let Some(crate::btor::BLine::Node { comment, symbol, .. }) = lines.first_mut() {
-                            if junk / 185 % 2 == 0 {
+                            if junk / 185 % 3 == 2 {
+                                // symbol and comment each below the buffer size, together above it
+                                let cut = (0..=big.len() / 2).rev().find(|&i| big.is_char_boundary(i)).unwrap_or(0);
+                                *symbol = Some(crate::btor::HexBytes(big.as_bytes()[..cut].to_vec()));
+                                *comment = Some(crate::btor::HexBytes(big.as_bytes()[cut..].to_vec()));
+                            } else if junk / 185 % 2 == 0 {
                                 *comment = Some(crate::btor::HexBytes(big.into_bytes()));
                             } else {
                                 *symbol = Some(crate::btor::HexBytes(big.into_bytes()));
